@@ -113,6 +113,27 @@ def c17_scenarios(seed, quick, cases, call, scn):
     mids += [call(4, op="CreateSub", name="projects/p1/subscriptions/s8", topic=T1, ack=10, push=p)
              for p in ("ftp://x", "x", " ", "mailto:a@b", "//host/path")]
     add("c17-numbers-tokens", mids)
+    # out-of-range ack deadlines at creation: whatever the answer, the subscription (if created),
+    # its topic and everything else keep working - the deadline is used by the first Pull
+    mids = []
+    S8 = "projects/p1/subscriptions/s8"
+    for a in (-1, -9, -10, -600, -2147483648, 0, 1, 9, 11, 600, 601, 86400, 2000000):
+        mids += [call(4, op="CreateSub", name=S8, topic=T1, ack=a),
+                 call(4, op="Publish", topic=T1, msgs=[{"p": "ack%d" % a}]),
+                 call(4, op="Pull", sub=S8, max=1, ri=True),
+                 call(4, op="ModAck", sub=S8, acks=[{"d": 1}], secs=0),
+                 call(4, op="Pull", sub=S8, max=1, ri=True),
+                 call(4, op="Ack", sub=S8, acks=[{"d": 1}]),
+                 call(4, op="Pull", sub=S1, max=10, ri=True),
+                 call(4, op="GetSub", name=S8),
+                 call(4, op="DeleteSub", name=S8)]
+    add("c17-ack-deadlines", mids)
+    # out-of-range batch limits
+    mids = []
+    for mx in (0, -1, -1000, -2147483648, 2147483647, 65536, 65537):
+        mids += [call(4, op="Publish", topic=T1, msgs=[{"p": "mx%d" % mx}]), call(4, op="Pull", sub=S1, max=mx, ri=True),
+                 call(4, op="Pull", sub=S1, max=10, ri=True)]
+    add("c17-pull-limits", mids)
     # inconsistent StreamingPull control messages (each ends its stream; everything else lives on)
     mids = []
     ctrl = [dict(rsub=S1), dict(rmax=5), dict(rmaxb=5), dict(rsecs=[10, 20]), dict(rsecs=[]), dict(acks=[{"lit": "abc"}]),
